@@ -353,9 +353,16 @@ func (m *monC05) checkCanaryNodes(s *Sim, t *Task, v *SyncView, st *edsv1.Extend
 		s.Violate("C15", "count", sig, "%s: reconcile succeeded with %d canary nodes, replicas %s resolves to %d (eligible nodes %d..%d)", t.Label(), len(nodes), can.Replicas.String(), wantLo, lo, hi)
 	}
 	// preference and spreading for nodes taken from scratch
-	if selectedNow && len(prev) == 0 && len(nodes) > 0 && v.PodsRead {
+	if selectedNow && len(prev) == 0 && len(nodes) > 0 {
 		restarts := map[string]int{}
-		for _, p := range v.Pods {
+		pods := v.Pods
+		if !v.PodsRead {
+			// the restart history could not be read and nodes were taken all the same: judged
+			// against the pods that exist
+			pods = s.Store.Pods()
+			s.Stats.NonVacuous["C15.blind-selection"]++
+		}
+		for _, p := range pods {
 			if isDaemonPod(p, v.EDS.Namespace, v.EDS.Name) {
 				restarts[p.Spec.NodeName] += sumRestarts(p)
 			}
